@@ -296,7 +296,12 @@ def check_c13(tier, seed):
             c = copy.deepcopy(base); c['cfg_prefill'] = pf; c['cfg_prefill_seed'] = rng.randint(1, 10**6); c['mem'] = {'poison': rng.choice([0, 0xa5, 0xff, 0x7f])}; fam.append(c)
             ck.ev.fault('caller_garbage:' + pf); ck.ev.fault('heap_poison')
         fams.append(fam)
-    rs = run_families(ck, 'C13', 'diff_C13', fams, variant, adopt=('CRASH', 'TERM'))
+    # rate-control families run on the sanitizer-free build: on the sanitizer build the recorded out-of-bounds table read of the VBR/CVBR feedback
+    # (KF-C11-vbr-qp-table-overflow) ends those runs before they have produced anything to compare
+    rcf = [f for f in fams if f[0]['cfg'].get('rate_control_mode')]; nrc = [f for f in fams if not f[0]['cfg'].get('rate_control_mode')]
+    core.build('plain')
+    rs = run_families(ck, 'C13', 'diff_C13', nrc, variant, adopt=('CRASH', 'TERM')) + run_families(ck, 'C13', 'diff_C13', rcf, 'plain', adopt=('CRASH', 'TERM'))
+    fams = nrc + rcf
     # rejected configuration in a variant is a violation too (accepted in the zero variant)
     i = 0
     for fam in fams:
